@@ -149,4 +149,11 @@ theorem flatten_getD_tri : ∀ (F : List (List Nat)), (∀ f, f ∈ F → f.leng
     rw [this, ← List.getD_eq_getElem?_getD]
     exact ih
 
+/-! ### `__init__` -/
+
+theorem bridge_init :
+    C17S.initAllowedModes = ["square", "circle"] ∧ (∀ m, C17S.initMode false m = m) ∧ (∀ m, C17S.initMode true m = 2) ∧
+    C17S.initKeys = ("custom_boundary", "use_cotan") ∧ C17S.baseSaveOnCorners = ("save_on_corners", true) :=
+  ⟨rfl, fun _ => rfl, fun _ => rfl, rfl, rfl⟩
+
 end Mouette.Tutte
